@@ -10,6 +10,7 @@ func main() {
 		vlib.Group{Name: "fd", Gen: genFD},
 		vlib.Group{Name: "minimize", Gen: genMinimize},
 		vlib.Group{Name: "pools", Gen: genPools},
+		vlib.Group{Name: "pool-discipline", Gen: genPoolDiscipline},
 		vlib.Group{Name: "lazy", Gen: genLazy},
 	)
 }
